@@ -59,6 +59,17 @@ def gen_case(rng, kind):
         freq = f0x * np.array([0.125, 0.25, 0.5, 1.0, 2.0, 4.0, 8.0])
         mc = np.array([1.0, 1.0, 1.5, float(rng.choice([2.0, 4.0, 3.0])), 1.5, 1.0, 0.5])
         sd = np.full(7, float(rng.choice([0.25, 0.5, 1.0])))
+        # samples EXACTLY on the ends of the guideline's open bands carry the decisive value: sigma_A only matters for 0.5 f0 < f < 2 f0,
+        # the amplitude drop is looked for in (f0/4, f0) and (f0, 4 f0) as the code (and the model) delimit them
+        v = int(rng.integers(0, 5))
+        if v == 1:
+            sd[4] = 50.0          # at exactly 2 f0
+        elif v == 2:
+            sd[2] = 50.0          # at exactly f0 / 2
+        elif v == 3:
+            mc = np.array([2.5, 1.0, 2.5, 4.0, 2.5, 2.5, 2.5])     # the only sample below A0/2 sits at exactly f0 / 4
+        elif v == 4:
+            mc = np.array([2.5, 2.5, 2.5, 4.0, 2.5, 1.0, 2.5])     # ... at exactly 4 f0
         (eps, _th) = [(0.25, 3), (0.2, 2.5), (0.15, 2), (0.1, 1.78), (0.05, 1.58)][int(np.searchsorted(EDGES, f0x, side="right"))]
         fn_std = float(rng.choice([eps * f0x, np.nextafter(eps * f0x, 0), np.nextafter(eps * f0x, 10), 0.0]))   # 0.0: all windows peak on one sample
         rng_ = (None, None)
@@ -131,12 +142,13 @@ def margins(case):
             return abs(a - b) / max(abs(a), abs(b), 1e-300)
         sig = np.exp(np.log(m) + s) / m
         band = sig[np.logical_and(f > 0.5 * f0, f < 2 * f0)]
-        # which samples are in the band can itself be a tie
-        bt = min([rel(x, 0.5 * f0) for x in f] + [rel(x, 2 * f0) for x in f])
+        # band membership is NOT a rounding tie: 0.5 f0, 2 f0, f0/4 and 4 f0 are exact in binary floating point and the samples are the same
+        # doubles on both sides, so `f < 2 f0` etc. are decided identically by the code and the model (a sample exactly on a band end is a
+        # legitimate, decisive input)
+        bt = big
         out["rel"] = [rel(f0, 10 / case["lw"]), rel(case["lw"] * case["nw"] * f0, 200),
                       min(min(rel(np.max(band), 2), rel(np.max(band), 3), rel(f0, 0.5)) if len(band) else big, bt)]
-        lowband = min([rel(x, f0 / 4) for x in f])
-        highband = min([rel(x, 4 * f0) for x in f])
+        lowband = highband = big
         amp = min(rel(x, a0 / 2) for x in m)
         up = np.exp(np.log(m) + s); dn = np.exp(np.log(m) - s)
         pu, pl = ses.peak_index(up), ses.peak_index(dn)
